@@ -101,7 +101,7 @@ def array_split_chunksize(x, chunksize):
 
 def get_inverse_indices(n, indices):
     """Return the indices that are not in input array given a size n"""
-    if indices.max() >= n:
+    if len(indices) and indices.max() >= n:
         raise ValueError("Indices contain values that are out of range for n")
     inv = np.arange(n, dtype=int)
     return inv[~np.isin(inv, indices)]
